@@ -158,6 +158,68 @@ def cases():
             argv_run(m.main, ["marinate", style_path(work, P, st)])
         add("marinate/" + st, {"plt00010": "plt00010"}, marinate, [os.path.join("data/plt00010.pkl")])
 
+    # ---- default outputs for the other ways of naming the input: "./x", "res/../x", "." from inside the directory,
+    #      ".." from one of its level directories, and a parent directory whose name contains the replaced substrings
+    def typed(work, rel, form):
+        """(path as typed, directory to run from)"""
+        if form == "dotslash":
+            return "./" + rel, work
+        if form == "updown":
+            return "res/../" + rel, work
+        if form == "dot":
+            return ".", os.path.join(work, rel)
+        if form == "dot-trail":
+            return "./", os.path.join(work, rel)
+        if form == "dotdot":
+            return "..", os.path.join(work, rel, "Level_0")
+        raise core.MachineryError(form)
+    for form in ("dotslash", "updown", "dot", "dot-trail", "dotdot"):
+        def chef_d(work, form=form):
+            from amr_kitchen.chef import Chef
+            pth, cwd = typed(work, P, form)
+            os.chdir(cwd)
+            Chef(pth, recipe=RECIPE, serial=True).cook()
+        add("chef/default/" + form, {"plt00010": "plt00010"}, chef_d, [os.path.join("data/plt00010_ck")])
+
+        def marinate_d(work, form=form):
+            from amr_kitchen import marinate as m
+            pth, cwd = typed(work, P, form)
+            os.chdir(cwd)
+            argv_run(m.main, ["marinate", pth])
+        add("marinate/" + form, {"plt00010": "plt00010"}, marinate_d, [os.path.join("data/plt00010.pkl")])
+
+        def mand_d(work, form=form):
+            from amr_kitchen.mandoline import Mandoline
+            pth, cwd = typed(work, P, form)
+            os.chdir(cwd)
+            Mandoline(pth, fields=["u"], serial=True, verbose=0).slice(normal=1, fformat="array")
+        add("mandoline/array/default/" + form, {"plt00010": "plt00010"}, mand_d, [os.path.join("data", "S")])
+
+        def chk_d(work, form=form):
+            from amr_kitchen.chk2plt import chk2plt
+            pth, cwd = typed(work, "data/chk00005", form)
+            os.chdir(cwd)
+            chk2plt(pth, species=["H2", "O2"])
+        add("chk2plt/default/" + form, {"chk00005": "chk00005"}, chk_d, [os.path.join("data/plt00005")])
+
+    for form in ("dotslash", "updown"):
+        def combine_d(work, form=form):
+            from amr_kitchen import PlotfileCooker
+            from amr_kitchen.combine import combine
+            combine(PlotfileCooker(typed(work, P, form)[0]), PlotfileCooker(typed(work, Q, form)[0]))
+        add("combine/default/" + form, {"plt00010": "plt00010", "plt00020": "plt00020"}, combine_d, [os.path.join("plt00010plt00020")])
+
+    # a parent directory called like the substrings the default rules replace
+    def chk_parent(work):
+        from amr_kitchen.chk2plt import chk2plt
+        chk2plt("data/chk_plt_runs/chk00005", species=["H2", "O2"])
+    add("chk2plt/default/parent-named-chk", {"chk00005": "chk_plt_runs/chk00005"}, chk_parent, [os.path.join("data/chk_plt_runs/plt00005")])
+
+    def mand_parent(work):
+        from amr_kitchen.mandoline import Mandoline
+        Mandoline("data/chk_plt_runs/plt00010", fields=["u"], serial=True, verbose=0).slice(normal=1, fformat="array")
+    add("mandoline/array/default/parent-named-plt", {"plt00010": "chk_plt_runs/plt00010"}, mand_parent, [os.path.join("data/chk_plt_runs", "S")])
+
     def whip_default(work):
         from amr_kitchen.whip import cli
         os.chdir(os.path.join(work, "data"))
@@ -313,7 +375,7 @@ def run(chk, replay):
                        "tasks run in-process (scheduled pool), so a worker's OSError reaches the parent like a pickled exception does"]
     core.import_repo()
     # 1. design level
-    for what, consts in (("path algebra + fault scripts", {"Norm": "TRUE", "PropagateFault": "TRUE", "OutRoot": '"out"'}),):
+    for what, consts in (("path algebra + fault scripts", {"Norm": '"abspath"', "PropagateFault": "TRUE", "OutRoot": '"out"'}),):
         r = chk.add_tlc(tlc.run("MC_C13", {"SPECIFICATION": "Spec", "CONSTANTS": consts,
                                            "INVARIANTS": ["DefaultBeside", "WritesUnderOutput", "InputsUntouched", "FailureVisible"],
                                            "PROPERTIES": ["Terminates"]}, workers=4, timeout=600), what)
@@ -345,7 +407,7 @@ def run(chk, replay):
     with open(tf, "w") as f:
         for ln in lines:
             f.write(json.dumps(ln) + "\n")
-    r = tlc.run("FsTrace", {"SPECIFICATION": "TraceSpec", "CONSTANTS": {"Norm": "TRUE"}, "INVARIANTS": ["Report"],
+    r = tlc.run("FsTrace", {"SPECIFICATION": "TraceSpec", "CONSTANTS": {"Norm": '"abspath"'}, "INVARIANTS": ["Report"],
                             "POSTCONDITION": "TraceAccepted"}, workers=1, timeout=1800, env={"TRACE_FILE": tf})
     chk.add_tlc(r, "trace validation of %d runs (%d events)" % (tid, len(lines)))
     if r.violated:
